@@ -252,3 +252,21 @@ def check_rename_loose(oracle, text, entries, new_lower='zz', new_upper='Zz'):
             problems.append('as a free-standing document without a package: rename of %r at offset %d to %r is accepted with the edits %s, the references are %s' % (e['text'], e['start'], new, eds, refs))
     return problems, accepted
 
+
+# a record type whose FIRST variant and a later one share a label that is not common to all variants: by construction the label of a
+# constructor call / pattern belongs to the field of THAT variant
+LABEL_TEXT = ('pub type Shape { Circle(radius: Int, name: String) Square(side: Int, name: String) Point }\n'
+              'pub fn mk() { Square(side: 1, name: "s") }\n'
+              'pub fn nm(s: Shape) { case s { Square(name: n, side: _) -> n  Circle(name: m, radius: _) -> m  Point -> "p" } }\n')
+
+
+def label_expected():
+    occ = lambda w: [m.start() for m in re.finditer(r'\b%s\b' % w, LABEL_TEXT)]
+    nm = occ('name'); sd = occ('side'); rd = occ('radius')
+    groups = [[nm[0], nm[4]], [nm[1], nm[2], nm[3]], sd, rd]
+    exp = {}
+    for g in groups:
+        for o in g:
+            exp[(0, o)] = frozenset((0, x) for x in g)
+    return exp
+
